@@ -60,6 +60,8 @@ def parse_acc(acc):
         n, nd = a[0], a[1]; p = 2
         for _ in range(n):
             parts.append((a[p:p + nd], a[p + nd:p + 2 * nd], None)); p += 2 * nd
+        if nd == 0:
+            form = 'vara'        # the dispatcher hands a varn request on a scalar variable to put_var/get_var
     return dict(vid=vid, form=form, memtok=mt, k=k, flex=flex, buf=buf, parts=parts)
 
 
@@ -204,6 +206,8 @@ class Program:
     def can_read(self, q, k):
         if k not in self.val or k in self.locked:
             return False
+        if self.s.vars[k[0]].isrec and k[1][0] >= self.dview[q]:
+            return False        # beyond the record count this rank knows (independent mode: agreed only by sync)
         return self.wrank[k] == q or self.wgp[k] < self.gp
 
     def commit(self, q, keys, vals):
